@@ -29,7 +29,7 @@ ASSUMPTIONS = [
 ]
 MONITORS = ["tick_text", "construct", "inexact", "arith", "history", "beatvalues", "beatvalues_inplace_edit", "beatvalues_slice", "timing_string", "timingdata"]
 REQUIRED = ["two_events_on_one_beat", "arith_mixed_int", "arith_mixed_fraction", "inexact_half_tick_boundary", "timing_string_linebreaks",
-            "rows_not_in_beat_order_timing_string", "rows_not_in_beat_order_timingdata", "inexact_value_of_a_subclass", "pair_with_negative_denominator"]
+            "rows_not_in_beat_order_timing_string", "rows_not_in_beat_order_timingdata", "inexact_value_of_a_subclass", "pair_with_negative_denominator", "arith_with_a_zero_operand"]
 
 TICK_LIMIT = 96000
 
@@ -120,10 +120,11 @@ def cases(ctx):
                 v = rdec_str(rng)
             yield {"kind": "inexact", "form": form, "v": v}
         elif r in (2, 3):
+            za, zb = rng.random() < 0.08, rng.random() < 0.08   # zero (and one) operands: the identity elements
             yield {
                 "kind": "arith",
-                "a": rfrac(rng),
-                "b": rfrac(rng),
+                "a": [0, rng.choice([1, 3, 48])] if za else ([1, 1] if rng.random() < 0.03 else rfrac(rng)),
+                "b": [0, rng.choice([1, 5])] if zb else ([1, 1] if rng.random() < 0.03 else rfrac(rng)),
                 "btype": rng.choice(["beat", "int", "fraction", "beat"]),
                 "side": rng.choice(["left", "right"]),
             }
@@ -464,6 +465,8 @@ def _arith(ctx, case, Beat):
     else:
         other = Beat(bn, bd)
     a = Beat(an, ad)
+    if fa == 0 or fb == 0:
+        ctx.feat("arith_with_a_zero_operand")
     ctx.begin(case, nontrivial=fa != 0 and fb != 0)
     for name, op in BINOPS.items():
         x, y, fx, fy = (a, other, fa, fb) if side == "left" else (other, a, fb, fa)
